@@ -9,6 +9,7 @@ import (
 	"os/exec"
 	"path/filepath"
 	"strings"
+	"sync"
 	"time"
 )
 
@@ -249,8 +250,7 @@ func (u *Unit) instantiateLemmas(asserts []string) []string {
 				}
 				if i == len(l.Pats) {
 					count++
-					env := &Env{u: u, s: dummy, names: names}
-					f, err := env.formula(l.Body)
+					f, err := u.lemmaInstance(l, names, dummy)
 					if err != nil {
 						panic(abortUnit{fmt.Sprintf("%s:%d: lemma %s: %v", l.File, l.Line, l.Fn, err)})
 					}
@@ -329,6 +329,21 @@ func (u *Unit) header() string {
 	for _, d := range u.decls {
 		b.WriteString(d + "\n")
 	}
+	return b.String()
+}
+
+var noLemmas = false
+
+// queryNoLemmas: satisfiability of the bare path condition.
+func (o *Oblig) queryNoLemmas() string {
+	u := o.Unit
+	var b strings.Builder
+	b.WriteString("(set-option :produce-models true)\n(set-logic ALL)\n")
+	b.WriteString(u.header())
+	for _, a := range o.PC {
+		b.WriteString("(assert " + a + ")\n")
+	}
+	b.WriteString("(check-sat)\n")
 	return b.String()
 }
 
@@ -469,4 +484,31 @@ func parseValues(o *Oblig, out string) map[string]string {
 		}
 	}
 	return m
+}
+
+var lemmaTemplates sync.Map // *Lemma -> string with @@name@@ placeholders
+
+// lemmaInstance translates the lemma body once (with placeholders) and substitutes the argument terms.
+func (u *Unit) lemmaInstance(l *Lemma, names map[string]Term, dummy *State) (string, error) {
+	var tmpl string
+	if t, ok := lemmaTemplates.Load(l); ok {
+		tmpl = t.(string)
+	} else {
+		ph := map[string]Term{}
+		for n, t := range names {
+			ph[n] = Term{S: "@@" + n + "@@", Sort: t.Sort}
+		}
+		env := &Env{u: u, s: dummy, names: ph}
+		f, err := env.formula(l.Body)
+		if err != nil {
+			return "", err
+		}
+		tmpl = f
+		lemmaTemplates.Store(l, tmpl)
+	}
+	var pairs []string
+	for n, t := range names {
+		pairs = append(pairs, "@@"+n+"@@", t.S)
+	}
+	return strings.NewReplacer(pairs...).Replace(tmpl), nil
 }
